@@ -5,10 +5,11 @@ C09 — property theorems.  Evaluations on separate VMs are safe to run concurre
 * `lockset_sound`: for ANY table of access sites that passes the lockset check, ANY number of
   threads, ANY mutex-respecting interleaving (trace) of any length: two conflicting accesses
   by different threads are ordered by a release→acquire edge on a common mutex – no data race.
-* the code as it is does NOT pass the check (`C09_counterexample_*`): `GoType.GetConverter`
-  reaches `typeConverters`, `goTypeRegistry` and `GoType.converter` without `goTypeMutex`, and a
-  re-run of a VM replaces `loadedCode`/`modules` without the `cloneMutex` that `Clone` reads
-  them under.  Everything else passes (`lockset_ok_except_known`, `C09_partial_no_race`).
+* the code as it is does NOT pass the check (`C09_counterexample_*`): a re-run of a VM replaces
+  `loadedCode`/`modules` without the `cloneMutex` that `Clone` reads them under.  Everything
+  else passes (`lockset_ok_except_known`, `C09_partial_no_race`) — including, since the repair
+  of `GoType.GetConverter` in /repo, the converter registries (`C09_fixed_getconverter_*`,
+  `C09_converter_registries_locked`).
 * `vm_never_writes_code`, `isolated_results`: on the VM model, under sequentially consistent
   (i.e. race-free) execution, every interleaving of any number of evaluations gives each
   evaluation exactly the state it reaches alone, and never changes the shared compiled code.
@@ -81,44 +82,68 @@ theorem lockset_sound_from_init (T : List Site) (hT : locksetOK T = true)
     sites that can run during evaluations holds a common mutex -/
 def C09_full_lockset : Prop := locksetOK implSites = true
 
-/-- it does not hold: e.g. `createTypeConverter`'s map write and `getTypeConverter`'s map read
-    have an empty must-hold lockset (reached from `GoType.GetConverter` without `goTypeMutex`) -/
+/-- it does not hold: `Clone` reads `loadedCode` / `modules` / `globals` under `cloneMutex` while
+    a re-run of the same VM (`resetForNewCode`, `reloadCode`, `applyOptions`) replaces them
+    without it -/
 theorem C09_counterexample_lockset : ¬ C09_full_lockset := by
   unfold C09_full_lockset; decide
 
-def tcRead : Site := ofRow ("object.typeConverters", false, "object.getTypeConverter", false, [], false)
-def tcWrite : Site := ofRow ("object.typeConverters", false, "object.createTypeConverter", true, [], false)
-def gmLock : Lock := ("object.goTypeMutex", 0)
+def cloneRead : Site := ofRow ("vm.VirtualMachine.loadedCode", true, "vm.VirtualMachine.Clone", false,
+  [("vm.VirtualMachine.cloneMutex", true, true)], false)
+def rerunWrite : Site := ofRow ("vm.VirtualMachine.loadedCode", true, "vm.VirtualMachine.resetForNewCode", true, [], false)
+def cmLock1 : Lock := ("vm.VirtualMachine.cloneMutex", 1)
 
-/-- the racy interleaving: evaluation 1 is inside `NewTypeConverter` (holding `goTypeMutex`) and
-    stores a converter; evaluation 2, in `Proxy.call → GetConverter → getTypeConverter`, reads
-    the map in between without any lock -/
+/-- the racy interleaving on VM object 1: thread 1 is inside `Clone` (holding that VM's
+    `cloneMutex`) and reads `loadedCode`; thread 2, re-running the same VM, replaces the map in
+    `resetForNewCode` without any lock -/
 def racyTrace : List Ev :=
-  [Ev.acq 1 gmLock true, Ev.acc 2 0 tcRead, Ev.acc 1 0 tcWrite, Ev.rel 1 gmLock true]
+  [Ev.acq 1 cmLock1 true, Ev.acc 1 1 cloneRead, Ev.acc 2 1 rerunWrite, Ev.rel 1 cmLock1 true]
 
 /-- a concrete, mutex-respecting trace over sites of the code as it is in which a read and a
-    write of `typeConverters` by different evaluations are adjacent: no synchronisation orders
+    write of one VM's `loadedCode` by different threads are adjacent: no synchronisation orders
     them (a data race) -/
 theorem C09_counterexample_trace :
-    (run LS.init racyTrace).isSome = true ∧ tcRead ∈ implSites ∧ tcWrite ∈ implSites
-      ∧ conflicting tcRead tcWrite = true ∧ ¬ Ordered 2 1 [] := by
+    (run LS.init racyTrace).isSome = true ∧ cloneRead ∈ implSites ∧ rerunWrite ∈ implSites
+      ∧ conflicting cloneRead rerunWrite = true ∧ ¬ Ordered 1 2 [] := by
   refine ⟨by decide, by decide, by decide, by decide, ?_⟩
   rintro ⟨l, x1, x2, a, b, c, h⟩
   cases a <;> simp at h
 
-/-- decidable guard: the locations of the two recorded findings -/
+/-! ### the repaired defect, kept as checked statements -/
+
+/-- BEFORE the repair ("fix: take goTypeMutex in GoType.GetConverter") the rows of the converter
+    registries violated the discipline: `createTypeConverter`'s map write and
+    `getTypeConverter`'s map read had an empty must-hold lockset -/
+theorem C09_fixed_getconverter_was_racy : locksetOK (preFixRows.map ofRow) = false := by decide
+
+/-- the repair that was made is the one the model predicted: adding `goTypeMutex` to exactly
+    the unlocked concurrent rows of `preFixRows` gives the rows of the code as it is now, up to
+    the renaming of the function that holds the accesses (`GetConverter` → `getConverter`) -/
+theorem C09_fixed_getconverter_repair_predicted :
+    ((preFixRows.map ofRow).map repair).map (fun s => (s.loc, s.write, s.locks, s.init))
+      = ((implSites.filter fun s => getConverterLocs.contains s.loc).map fun s => (s.loc, s.write, s.locks, s.init)) := by
+  decide
+
+/-- AFTER it: the converter registries satisfy the discipline, so `C09_partial_no_race` below
+    covers them (their locations are outside `guardKnown`) -/
+theorem C09_converter_registries_locked :
+    locksetOK (implSites.filter fun s => getConverterLocs.contains s.loc) = true
+      ∧ getConverterLocs.all (fun l => !knownRacyLoc l) = true := by
+  constructor <;> decide
+
+/-- decidable guard: the locations of the recorded finding (Clone during a re-run) -/
 def guardKnown (s : Site) : Bool := knownRacyLoc s.loc
 
 /-- all other sites satisfy the discipline (tie: `implRows` is regenerated on every run) -/
 theorem lockset_ok_except_known :
     locksetOK (implSites.filter fun s => !guardKnown s) = true := by decide
 
-/-- every failing pair of the inventory falls under one of the two findings' guards -/
+/-- every failing pair of the inventory falls under the finding's guard -/
 theorem violations_are_known :
     (violations implSites).all (fun p => findingOf p.1 p.2 != "") = true := by decide
 
-/-- with `goTypeMutex` taken on the `GetConverter` path and `cloneMutex` around the re-run
-    writes, the whole inventory satisfies the discipline -/
+/-- with `cloneMutex` taken around the re-run's writes the whole inventory satisfies the
+    discipline -/
 theorem lockset_ok_after_repair : locksetOK (implSites.map repair) = true := by decide
 
 /-- **No data race outside the known findings.**  In every mutex-respecting trace of any
